@@ -30,15 +30,15 @@ CHUNK = 8
 
 CONTROL = {
     "assign", "aug", "expr", "return", "return-bare", "return-walrus", "raise", "raise-base", "yield", "yield-recv",
-    "yield-from", "yield-bare", "break", "continue",
+    "yield-from", "yield-bare", "aug-yield", "break", "continue",
     "if", "if-else", "for", "for-else", "for-tuple", "for-star", "while", "while-walrus", "try-except",
-    "try-except-noname", "try-finally", "try-except-else", "with", "with-swallow", "with-noas",
+    "try-except-noname", "try-finally", "try-except-else", "try-except-finally", "with", "with-swallow", "with-noas", "with-two", "while-else", "assert",
 }
 
 
 CONTROL_QUICK = {
-    "assign", "return", "raise", "raise-base", "yield", "yield-recv", "break", "continue",
-    "if-else", "for", "for-else", "while", "try-except", "try-finally", "with",
+    "assign", "return", "raise", "raise-base", "yield", "yield-recv", "aug-yield", "break", "continue",
+    "if-else", "for", "for-else", "while", "while-else", "try-except", "try-finally", "with",
 }
 CTL_DRIVERS_QUICK = [
     ("next", "next", "next", "next"), ("next", "send", "next"), ("next", "throw"), ("next", "close"),
@@ -178,6 +178,16 @@ def check_case(prog, info, x, driver, part, record=True):
     gp = grammar_problems([e for e in got if e[0] != "$var"], ended) if got else []
     if gp:
         return ("bracket-grammar", "; ".join(gp) + f" in {got!r}")
+    # each of the exit-path meta variables probed alone (selective instrumentation of one name)
+    for single in ("#error", "#value", "#exit"):
+        alone = []
+        obs1, ok1 = probe_merged(prog, info, [f"f > {single}"], x, driver, part, alone, names)
+        if ok1 is None:
+            return ("activation", f"activation of 'f > {single}' alone failed: {obs1[1]}: {obs1[2]}")
+        want1 = [e for e in exp if e[0] == single]
+        got1 = [e for e in alone if not (e[0] == "#error" and isinstance(e[1], tuple) and e[1][:2] == ("exc", "GeneratorExit"))]
+        if want1 != got1:
+            return ("single-meta-probe", f"'f > {single}' probed alone: expected {want1!r}, delivered {got1!r}")
     return None
 
 
